@@ -136,6 +136,23 @@ func liquibaseRead(b string) (cmds []string, rb [][]string, now string, ok bool)
 	return cmds, rb, now, true
 }
 
+// lineClosedPlan is Lex/DownModel.v's premise of the line reader, in Go: every reverse statement is
+// line_closed (not empty, does not start with a newline or "--", contains no ";\n") and every
+// comment of a change that has reverse statements is free of newlines.
+func lineClosedPlan(p *migrate.Plan, revs [][]string) bool {
+	for i, c := range p.Changes {
+		if len(revs[i]) > 0 && strings.Contains(c.Comment, "\n") {
+			return false
+		}
+		for _, s := range revs[i] {
+			if s == "" || s[0] == '\n' || strings.HasPrefix(s, "--") || strings.Contains(s, ";\n") {
+				return false
+			}
+		}
+	}
+	return true
+}
+
 type dplan struct {
 	id      string
 	src     string // synthetic | sqlite | mysql | postgres
@@ -296,6 +313,14 @@ func checkPlan(w *out.W, d dplan) {
 		}
 		if hasDown {
 			gotDown, err := scanTexts(downSec)
+			if f.name == "golang-migrate" {
+				// tie of the model's reader (line_scan under line_closed / no_nl) with migrate.Stmts
+				if lineClosedPlan(p, revs) && err == nil {
+					obs = append(obs, "golang-migrate.scan "+hs(strings.Join(gotDown, "\x00")))
+				} else {
+					obs = append(obs, "golang-migrate.scan open")
+				}
+			}
 			if err != nil || !eqStrs(gotDown, down) {
 				w.Violation(d.id, "downfile-"+f.name, fmt.Sprintf("down section scans to %q (err %v), expected flat_map ReverseStmts (rev Changes) = %q | %s", gotDown, err, down, d.desc))
 			}
